@@ -32,7 +32,7 @@ Emit == done => PrintT(<<"REPLAY", ToJson(Case)>>)
 OnlyTrailingNewlines == done => (Len(Out1) > 0 /\ Out1[1] # "N" => Len(TrimNL(Out1)) > 0)
 Idempotent == done => TrimNL(TrimNL(o1)) = TrimNL(o1)
 OutsQ == { <<"x">>, <<>>, <<"x","N","N">>, <<"a","$","1","b">>, <<"$","{","x","}">>, <<"$","n","a","m","e">>, <<"a","\\","b">>,
-           <<"a"," ","b">>, <<"{","a",",","b","}">>, <<"*">> }
+           <<"a"," ","b">>, <<"{","a",",","b","}">>, <<"*">> , <<"{","1",".",".","3","}">>, <<"x","{","a",",","b","}">>, <<"$","(","v","m","k"," ","9"," ","0",")">> }   \* text that looks like another expansion
 OutsT == OutsQ \cup { <<" ","l">>, <<"t"," ","N">>, <<"x","N","y","N">>, <<"$","0">>, <<"\\","1">>, <<"$","$">>, <<"(",")">>, <<"&">>, <<"'">>, <<"\"">>, <<"'","q","'">> }
 KQ == {"simple", "pipeline", "failing", "notfound", "invalid", "builtin"}
 CQ == {"unq", "dq", "assign", "here"}
